@@ -109,7 +109,15 @@ func (q *queue) addPacket(packet *PacketData) {
 // two parties to be seen as synced; this may fail in which case the caller is
 // expected to call resend again.
 func (q *queue) resend() error {
-	if time.Since(q.lastResend) < q.timeoutManager.GetHandshakeTimeout() {
+	return q.resendQueue(false)
+}
+
+// resendQueue resends the current contents of the queue like resend does. If
+// force is set, it does so even if the queue was resent only recently.
+func (q *queue) resendQueue(force bool) error {
+	recently := time.Since(q.lastResend) <
+		q.timeoutManager.GetHandshakeTimeout()
+	if recently && !force {
 		q.cfg.log.Tracef("Resent the queue recently.")
 
 		return nil
